@@ -18,23 +18,42 @@ Definition viol_sig (v : viol) : string :=
   end.
 
 (* hazards of the unchanged tree (function, signatures that may be reported for it) *)
+Definition sg_chan_under_table : string := "block on query.RunningQueryState.StateChan holding query.arqMapLock".
+Definition sg_chan_under_query : string := "block on query.RunningQueryState.StateChan holding query.RunningQueryState.rqsLock".
+Definition sg_two_queries : string := "reacquire query.RunningQueryState.rqsLock".
+Definition sg_merge_adderror : string := "reacquire mresults.MetricsResult.rwLock".
+Definition sg_stale_chan : string := "block on removeStaleSegments:segStoresToDeleteChan holding writer.SegStore.Lock".
+
 Definition lk_exceptions : list (string * list string) :=
   [ (* READY/RUNNING are sent while arqMapLock is held; the channel of a query that has never run is empty (QueryLife model) *)
-    ("lk_segment_query__RunQuery", ["block on *.StateChan holding query.arqMapLock"]);
-    ("lk_segment_query__initiateRunQuery", ["block on *.StateChan holding query.arqMapLock"]);
-    ("lk_segment_query__PullQueriesToRun", ["block on *.StateChan holding query.arqMapLock"]);
-    ("lk_segment_query__StartQuery", ["block on *.StateChan holding query.arqMapLock"]);
-    ("lk_segment_query__StartQueryAsCoordinator", ["block on *.StateChan holding *.rqsLock"]);
-    (* progress / response updates of ASYNC queries are sent while the query's own lock is held *)
-    ("lk_segment_query__IncProgressForRRCCmd", ["block on *.StateChan holding *.rqsLock"]);
-    ("lk_segment_query__SetPipeResp", ["block on *.StateChan holding *.rqsLock"]);
+    ("lk_segment_query__RunQuery", [sg_chan_under_table]);
+    ("lk_segment_query__initiateRunQuery", [sg_chan_under_table]);
+    ("lk_segment_query__PullQueriesToRun", [sg_chan_under_table]);
+    ("lk_segment_query__StartQuery", [sg_chan_under_table]);
+    ("lk_segment_query__StartQueryAsCoordinator", [sg_chan_under_query]);
     (* QUERY_RESTART is sent to every running query under the read lock of the table *)
-    ("lk_segment_query__RestartAllRunningQueries", ["block on *.StateChan holding query.arqMapLock"]);
-    (* the OLD query's rqsLock is held while the NEW query's rqsLock is taken: two objects, one name *)
-    ("lk_segment_query__RunningQueryState_RestartQuery", ["reacquire *.rqsLock"; "block on *.StateChan holding *.rqsLock"]);
+    ("lk_segment_query__RestartAllRunningQueries", [sg_chan_under_table]);
+    (* progress / response updates of ASYNC queries are sent while the query's own lock is held; the searcher calls them *)
+    ("lk_segment_query__IncProgressForRRCCmd", [sg_chan_under_query]);
+    ("lk_segment_query__SetPipeResp", [sg_chan_under_query]);
+    ("lk_segment_query_processor__Searcher_Fetch", [sg_chan_under_query]);
+    ("lk_segment_query_processor__Searcher_fetchRRCs", [sg_chan_under_query]);
+    ("lk_segment_query_processor__Searcher_fetchColumnSortedRRCs", [sg_chan_under_query]);
+    ("lk_segment_query_processor__Searcher_fetchSortedRRCsForQSR", [sg_chan_under_query]);
+    ("lk_segment_query_processor__Searcher_fetchSortedRRCsFromQSRs", [sg_chan_under_query]);
+    (* the OLD query's rqsLock is held while the NEW query's rqsLock is taken: two objects of one type *)
+    ("lk_segment_query__RunningQueryState_RestartQuery", [sg_two_queries]);
+    (* MetricsResult.Merge holds r.rwLock and calls r.AddError, which locks it again: a self-deadlock on the branch where
+       Series.Merge fails — which it never does today (it returns nil on every path); callers inherit the objection *)
+    ("lk_segment_results_mresults__MetricsResult_Merge", [sg_merge_adderror]);
+    ("lk_segment_search__blockWorker", [sg_merge_adderror]);
+    ("lk_segment_search__RawSearchMetricsSegment", [sg_merge_adderror]);
+    ("lk_segment_writer_metrics__SearchUnrotatedMetricsBlock", [sg_merge_adderror]);
+    ("lk_segment_query__applyMetricsOperatorOnSegments", [sg_merge_adderror]);
+    ("lk_segment_query__ApplyMetricsQuery", [sg_merge_adderror]);
     (* a result channel local to the function is written while the segstore lock is held *)
-    ("lk_segment_writer__removeStaleSegments", ["block on * holding *.Lock"]);
-    ("lk_segment_writer__removeStaleSegmentsLoop", ["block on * holding *.Lock"]) ].
+    ("lk_segment_writer__removeStaleSegments", [sg_stale_chan]);
+    ("lk_segment_writer__removeStaleSegmentsLoop", [sg_stale_chan]) ].
 
 Fixpoint allowed (name : string) (l : list (string * list string)) : list string :=
   match l with [] => [] | (n, sigs) :: r => if String.eqb n name then sigs else allowed name r end.
